@@ -21,7 +21,7 @@ int vprop_fork = 1;
 int vprop_cpu_limit_s = 60;
 const char *vprop_class_names[V_NCLASS] = {
   "crlf", "mixed_line_endings", "comments", "literal_operands", "float_literal", "hex_literal", "negative_literal", "L_suffix",
-  "type_names", "alignment", "multi_function", "n_m_directives", "x2_x4", "tabs", "two_d", "octal_size", NULL
+  "type_names", "alignment", "multi_function", "n_m_directives", "x2_x4", "tabs", "two_d", "octal_size", "number_like_or_keyword_like_names", NULL
 };
 
 void vprop_init (int argc, char **argv) { (void) argc; (void) argv; orc_init (); }
@@ -298,7 +298,27 @@ void vprop_case (VChoices *c, VResult *r)
     gen_opts_default (&go);
     go.allow_float = 1; go.max_insns = 14;
     ps_generate (c, &go, &ps[f], r);
-    snprintf (ps[f].name, sizeof ps[f].name, "fn_%d_%c", f, 'a' + (char) vc_pick (c, 26));
+    {
+      /* variable names a user may pick that look like something else to a careless reader of the text: spellings strtod accepts
+         (nan, inf, infinity), near misses, prefix and directive words, names of other variable classes.  Decided by the upper bits
+         of the function-name choice so that streams recorded earlier keep decoding the same way */
+      static const char *tricky[] = { "nan", "inf", "infinity", "info", "nano", "e1", "x2", "x4", "n", "m", "dest", "source", "temp",
+        "const", "param", "L", "f", "d9", "s9", "NAN", "INF", "Infinity", "nanx", "in", "i", "accumulator", "x", "ex", "p" };
+      uint32_t nraw = vc_u32 (c);
+      snprintf (ps[f].name, sizeof ps[f].name, "fn_%d_%c", f, 'a' + (char) (nraw % 26));
+      if ((nraw / 26) % 3 == 1) {
+        uint32_t k = nraw / 78;
+        for (i = 0; i < ps[f].nvars; i++) {
+          const char *nm = tricky[(k + (uint32_t) i * 7u) % (sizeof tricky / sizeof tricky[0])];
+          int q, clash = 0;
+          if (((k >> 5) + (uint32_t) i) % 2) continue;
+          for (q = 0; q < ps[f].nvars; q++) if (!strcmp (ps[f].vars[q].name, nm)) clash = 1;
+          if (clash) continue;
+          snprintf (ps[f].vars[i].name, sizeof ps[f].vars[i].name, "%s", nm);
+          r->classes |= 1u << 16;
+        }
+      }
+    }
     for (i = 0; i < ps[f].nvars; i++) {
       PVar *v = &ps[f].vars[i];
       inline_const[f][i] = 0;
